@@ -34,6 +34,13 @@ class Fwd( Component ):
 
 '''
 
+def _atomic_write(path,text):
+  """write-then-rename: a pool worker never imports a half-written generated module"""
+  import os, tempfile
+  d=os.path.dirname(path); fd,tmp=tempfile.mkstemp(dir=d,suffix='.tmp')
+  with os.fdopen(fd,'w') as f: f.write(text)
+  os.replace(tmp,path)
+
 def load(name,body):
   """body: source of `class Top(Component)` (after HEADER). returns a factory."""
   src=HEADER+body
@@ -41,7 +48,7 @@ def load(name,body):
   os.makedirs(OUT,exist_ok=True)
   path=os.path.join(OUT,f"zoo_{h}.py")
   if not os.path.exists(path):
-    with open(path,'w') as f: f.write(src)
+    _atomic_write(path,src)
   modname=f"zoo_{h}"
   if modname in sys.modules: mod=sys.modules[modname]
   else:
